@@ -308,6 +308,31 @@ CLAIMED = {
              "rgb()/opacity overflow, nested zero-size svg).",
         technique="Lean 4 proof (well-founded mutual induction with a budget invariant + pigeonhole for termination; case analysis of the start event; append lemma for the sibling frame; reuse of the C03 refinement) + exhaustive fault x element differential correspondence + removal relation as oracle",
         ref="DESIGN.md §4 C10"),
+    "C18": dict(
+        text="Lean 4 theorems. (1) Frame theorem over an abstract heap (locations holding objects with immutable payload and "
+             "references), for histories of ANY length (induction over the history): if the cells reachable from y are allocated and "
+             "none is reachable from x, then after any sequence of allowed mutations through x - each overwriting a cell of the "
+             "region x has been able to name (what it reached at the start plus what it wrote since) or taking a free cell, and "
+             "storing references into that region - every cell y reaches holds what it held, y reaches exactly the same cells (its "
+             "value to any depth is unchanged), and x still reaches none of them (so the same holds for what happens next and, "
+             "with the roles exchanged, for mutations through y); the invariant includes that the region covers whatever x "
+             "reaches now. (2) Observed sharing table: on every run the object graphs of source and result of every class x "
+             "derivation (31 classes/variants incl. identity-transform variants; copy, x*M, M*x, abs, Path(x), constructor-from-"
+             "object, ~M, +) are extracted from the running library by introspection (instance dictionaries, slots, lists, tuples, "
+             "dicts), written to Generated/C18_Sharing.lean, and the kernel decides a closure certificate for each (closed candidate "
+             "sets containing the roots, meeting in no mutable cell); certificate soundness is proved (reachability stays inside a "
+             "closed set), giving: source and result share no mutable object. Random histories on the implementation (0-3 mutations "
+             "before the derivation, then 1-6 public mutations on one side, then on the other: transform, reify, segment and point "
+             "edits, list edits, paint objects, values, children, leaves of groups) check after every step that the other side's "
+             "value snapshot is unchanged, that derivations leave their operands untouched and that copies are equal in value.",
+        note="Partial: that the library's public mutators are 'allowed' steps (write only cells reachable from their receiver, "
+             "storing arguments or fresh objects) is an assumption of the model, exercised by the random histories, not proved; "
+             "the graphs are observed for the zoo's representatives of each class, not for every instance. values dictionaries are "
+             "copied shallowly by the library: a mutable object a caller stores in values (e.g. a Matrix passed as transform=) is "
+             "shared by design of dict copy and is outside the statement (the zoo stores strings). Two fix: commits (Path(path)/"
+             "Path(subpath) and Path(segment...) adopting the source's segment objects).",
+        technique="Lean 4 proof (induction over mutation histories with a region invariant: frame/non-interference theorem; proved-sound closure certificates decided by the kernel on object graphs regenerated from the running code) + random mutation histories with value snapshots on the implementation",
+        ref="DESIGN.md §4 C18"),
 }
 ALL = ["C%02d" % i for i in range(1, 21)]
 
